@@ -397,22 +397,39 @@ fn main() {
         return;
     }
     let miri = rep.is_miri();
-    let nseq = if miri { 6 } else { a.pick(3000, 100_000) };
-    let mut rng = Rng::derive(a.seed, "C43", 0);
-    let mut deadlocks = 0;
+    let nseq = if miri { 6 } else { a.pick(3000, 120_000) };
     rep.require("two_arg_ops_on_aliases", if miri { 1 } else { 100 });
-    for _ in 0..nseq {
-        let len = if miri { 14 } else { rng.range(5, 40) as usize };
-        let ops = gen_seq(&mut rng, len);
-        rep.eval();
-        let out = if miri { exec(&ops, &|_| {}) } else { exec_watched(ops.clone()) };
-        if !judge(&rep, &ops, out) {
-            deadlocks += 1;
-            if deadlocks >= 3 {
-                rep.note("stopped early after 3 confirmed deadlocks (each leaks a blocked thread)");
-                break;
+    let workers: u64 = if miri { 1 } else { a.pick(4, 12) };
+    let deadlocks = std::sync::atomic::AtomicU64::new(0);
+    std::thread::scope(|sc| {
+        for w in 0..workers {
+            let (rep, a, deadlocks) = (&rep, &a, &deadlocks);
+            let body = move || {
+                let mut rng = Rng::derive(a.seed, "C43", w);
+                for _ in 0..(nseq / workers) {
+                    let len = if miri { 14 } else { rng.range(5, 40) as usize };
+                    let ops = gen_seq(&mut rng, len);
+                    rep.eval();
+                    let out = if miri { exec(&ops, &|_| {}) } else { exec_watched(ops.clone()) };
+                    if !judge(rep, &ops, out) {
+                        let n = deadlocks.fetch_add(1, std::sync::atomic::Ordering::SeqCst);
+                        if n >= 2 {
+                            rep.note("stopped early after 3 confirmed deadlocks (each leaks a blocked thread)");
+                            break;
+                        }
+                    }
+                    if deadlocks.load(std::sync::atomic::Ordering::SeqCst) >= 3 {
+                        break;
+                    }
+                }
+            };
+            if miri {
+                // Miri: run on the main thread so that Miri's own deadlock detector is the oracle
+                body();
+            } else {
+                sc.spawn(body);
             }
         }
-    }
+    });
     rep.finish();
 }
